@@ -806,6 +806,9 @@ class Polyhedron(Shape3D):
 
         """
         principal_moments, principal_axes = np.linalg.eigh(self.inertia_tensor)
+        if np.linalg.det(principal_axes) < 0:
+            # eigh returns an orthogonal matrix of either handedness; keep the rotation proper.
+            principal_axes[:, 0] *= -1
         self._vertices = np.dot(self._vertices, principal_axes)
         self._find_equations()
 
